@@ -74,7 +74,7 @@ type workItem struct {
 // arguments (nil args: parameters are symbolic, named after themselves).
 func (e *Engine) Run(fn *ssa.Function, init *State, args []AV) []Path {
 	if init == nil {
-		init = newState()
+		init = e.RootState()
 	}
 	if fn.Blocks == nil {
 		e.fail("function %s has no body", fn)
@@ -117,6 +117,20 @@ func (e *Engine) Run(fn *ssa.Function, init *State, args []AV) []Path {
 					out = append(out, Path{St: it.st, Loop: it.b})
 					continue
 				}
+				if it.count[it.b] <= 64 && e.headerDecided(it) {
+					// the loop condition is decided by the state (constant bound,
+					// e.g. a walk over a fixed table): follow this iteration as is;
+					// the body's blocks may be entered again
+					lb := loopInfoOf(it.b)
+					nv := make(map[*ssa.BasicBlock]int, len(it.visited))
+					for k, v := range it.visited {
+						if !lb.blocks[k] || k == it.b {
+							nv[k] = v
+						}
+					}
+					it.visited = nv
+					goto visit
+				}
 				li := loopInfoOf(it.b)
 				nw := make(map[*ssa.BasicBlock]bool, len(it.widened)+1)
 				for k, v := range it.widened {
@@ -137,6 +151,7 @@ func (e *Engine) Run(fn *ssa.Function, init *State, args []AV) []Path {
 				it.widen = true
 			}
 		}
+	visit:
 		it.visited[it.b] = it.st.splits
 		it.count[it.b]++
 		if e.Lean {
@@ -438,6 +453,9 @@ func (e *Engine) load(st *State, loc string, t types.Type) AV {
 			return e.typed(st, fmt.Sprintf("?%s@%d", loc, st.epoch), t)
 		}
 	}
+	if isAggregate(t) && hasChildren(st, loc) {
+		return AV{Kind: KAgg, Loc: loc}
+	}
 	if isLocal(loc) {
 		return zeroAV(t)
 	}
@@ -464,6 +482,21 @@ func (e *Engine) kill(st *State, loc string) {
 
 func (e *Engine) store(st *State, loc string, v AV, in ssa.Instruction) {
 	e.kill(st, loc)
+	if v.Kind == KAgg {
+		// copy of an aggregate whose parts are known: copy the parts
+		src := childPrefix(v.Loc)
+		dst := childPrefix(loc)
+		copies := map[string]AV{}
+		for k, x := range st.mem {
+			if strings.HasPrefix(k, src) {
+				copies[dst+k[len(src):]] = x
+			}
+		}
+		for k, x := range copies {
+			st.mem[k] = x
+		}
+		return
+	}
 	st.mem[loc] = v
 	if !isLocal(loc) {
 		st.events = append(st.events, Event{Kind: "store", Loc: loc, Val: v, Instr: in, Fn: in.Parent(), Depth: len(e.stack) - 1})
@@ -603,6 +636,8 @@ func (e *Engine) exec(st *State, in ssa.Instruction) ([]*State, []Path) {
 		base := e.eval(st, x.X)
 		fname := x.X.Type().Underlying().(*types.Struct).Field(x.Field).Name()
 		switch base.Kind {
+		case KAgg:
+			st.env[x] = e.load(st, childPrefix(base.Loc)+"."+fname, x.Type())
 		case KSym:
 			fv := e.typed(st, base.Sym+"."+fname, x.Type())
 			if strings.HasPrefix(base.Sym, "reflect.Type.Field(") && fname == "Type" {
@@ -634,6 +669,10 @@ func (e *Engine) exec(st *State, in ssa.Instruction) ([]*State, []Path) {
 	case *ssa.Index:
 		base := e.eval(st, x.X)
 		idx := e.eval(st, x.Index)
+		if base.Kind == KAgg && idx.Kind == KInt {
+			st.env[x] = e.load(st, childPrefix(base.Loc)+fmt.Sprintf("[%d]", idx.K), x.Type())
+			break
+		}
 		st.env[x] = e.typed(st, base.name()+"["+idx.name()+"]", x.Type())
 	case *ssa.Slice:
 		st.env[x] = e.slice(st, x)
@@ -1760,6 +1799,13 @@ func debugDump(w *World, name string) {
 			break
 		}
 	}
+	if fn == nil && w.Whole {
+		for f := range w.AllFuncs {
+			if f.String() == name && f.Blocks != nil {
+				fn = f
+			}
+		}
+	}
 	if fn == nil {
 		fmt.Println("no such function; candidates:")
 		for _, f := range w.Funcs {
@@ -1967,4 +2013,79 @@ func refineParent(st *State, term string, set iset) {
 		pre = append(pre, iv{plo, phi})
 	}
 	st.terms[x] = inter(cur, norm(pre))
+}
+
+// ---------- aggregates with known parts, base memory ----------
+
+func isAggregate(t types.Type) bool {
+	switch t.Underlying().(type) {
+	case *types.Struct, *types.Array:
+		return true
+	}
+	return false
+}
+
+// childPrefix: the prefix under which the parts of the aggregate at loc live.
+func childPrefix(loc string) string {
+	if strings.IndexByte(loc, '|') < 0 {
+		return loc + "|"
+	}
+	return loc
+}
+
+func hasChildren(st *State, loc string) bool {
+	p := childPrefix(loc)
+	for k := range st.mem {
+		if len(k) > len(p) && strings.HasPrefix(k, p) && (k[len(p)] == '.' || k[len(p)] == '[') {
+			return true
+		}
+	}
+	return false
+}
+
+// RootState: a fresh state seeded with the constant contents of package-level
+// tables that only their initialiser writes.
+func (e *Engine) RootState() *State {
+	st := newState()
+	for k, v := range e.w.BaseMem() {
+		st.mem[k] = v
+	}
+	return st
+}
+
+// headerDecided: with the φ-nodes of the loop header taking their incoming
+// values, the header's exit condition is a constant. Only φ, arithmetic,
+// conversions and len are evaluated; anything else makes it "not decided".
+func (e *Engine) headerDecided(it workItem) bool {
+	b := it.b
+	ifi, ok := b.Instrs[len(b.Instrs)-1].(*ssa.If)
+	if !ok || it.pred == nil {
+		return false
+	}
+	probe := it.st.clone()
+	for _, in := range b.Instrs[:len(b.Instrs)-1] {
+		switch x := in.(type) {
+		case *ssa.Phi:
+			for i, p := range b.Preds {
+				if p == it.pred {
+					probe.env[x] = e.eval(probe, x.Edges[i])
+				}
+			}
+		case *ssa.BinOp:
+			probe.env[x] = e.binop(probe, x)
+		case *ssa.Convert:
+			probe.env[x] = e.convert(probe, e.eval(probe, x.X), x.X.Type(), x.Type())
+		case *ssa.Call:
+			bi, isB := x.Call.Value.(*ssa.Builtin)
+			if !isB || bi.Name() != "len" {
+				return false
+			}
+			probe.env[x] = e.builtin(probe, x, bi)
+		case *ssa.DebugRef:
+		default:
+			return false
+		}
+	}
+	c := e.toBool(probe, e.eval(probe, ifi.Cond))
+	return c.Kind == KBool
 }
